@@ -42,21 +42,31 @@ theorem mem_removeSpecial_src {s : List Char} {c : Char} (h : c ∈ removeSpecia
   · exact Or.inr hd
 
 /-- `process_line`: a character of the result is the blank, a character of the
-    line, or (only with `lower_case=True`) a character of a table entry. -/
-theorem mem_processLine_src {t : Tables} {lc : Bool} {a : Allowed} {line : List Char} {c : Char}
-    (h : c ∈ processLine t lc a line) :
-    c = ' ' ∨ c ∈ line ∨ (lc = true ∧ ∃ p ∈ t.lower, c ∈ p.2) := by
-  simp only [processLine] at h
+    line, or (only with `lower_case=True`) a character of the lowered line. -/
+theorem mem_processLineG_src {ops : TextOps} {lc : Bool} {a : Allowed} {line : List Char} {c : Char}
+    (h : c ∈ processLineG ops lc a line) :
+    c = ' ' ∨ (lc = false ∧ c ∈ line) ∨ (lc = true ∧ c ∈ ops.lower line) := by
+  simp only [processLineG] at h
   rcases mem_filterSymbols h with h | h
   · exact Or.inl h
   · rcases mem_removeSpecial_src h with h | h
     · exact Or.inl h
     · cases lc with
-      | false => exact Or.inr (Or.inl (by simpa using h))
-      | true =>
-        rcases mem_lowerStr (by simpa using h) with h | h
-        · exact Or.inr (Or.inl h)
-        · exact Or.inr (Or.inr ⟨rfl, h⟩)
+      | false => exact Or.inr (Or.inl ⟨rfl, by simpa [lowered] using h⟩)
+      | true => exact Or.inr (Or.inr ⟨rfl, by simpa [lowered] using h⟩)
+
+/-- `process_line` with the tables: a character of the result is the blank, a
+    character of the line, or (only with `lower_case=True`) a character of a
+    table entry. -/
+theorem mem_processLine_src {t : Tables} {lc : Bool} {a : Allowed} {line : List Char} {c : Char}
+    (h : c ∈ processLine t lc a line) :
+    c = ' ' ∨ c ∈ line ∨ (lc = true ∧ ∃ p ∈ t.lower, c ∈ p.2) := by
+  rcases mem_processLineG_src (ops := t.ops) h with h | ⟨_, h⟩ | ⟨hl, h⟩
+  · exact Or.inl h
+  · exact Or.inr (Or.inl h)
+  · rcases mem_lowerStr h with h | h
+    · exact Or.inr (Or.inl h)
+    · exact Or.inr (Or.inr ⟨hl, h⟩)
 
 /-- `context_pattern.split`: the pieces (text pieces and marker pieces) consist
     of characters of the input (`cur` is the text piece being accumulated). -/
@@ -121,6 +131,11 @@ def FreeWord (d : Char) (w : Word) : Prop := d ∉ w
 def FreeEv (d : Char) (ev : Ev Word) : Prop :=
   (∀ tok ∈ ev.cues, d ∉ tok) ∧ (∀ tok ∈ ev.outcomes, d ∉ tok)
 
+/-- the hypothesis on the lower-casing FUNCTION: lowering never introduces `d`.
+    (True of `str.lower` for `d = '\n'`, `'\r'`: a Python-level fact, listed in
+    DESIGN §7.)  Only needed with `lower_case=True`. -/
+def LowerKeeps (d : Char) (ops : TextOps) : Prop := ∀ s, d ∉ s → d ∉ ops.lower s
+
 /-- the hypothesis on the lower-casing table: no entry maps a character to a
     string containing `d`.  Only needed with `lower_case=True`. -/
 def LowerFree (d : Char) (t : Tables) : Prop := ∀ p ∈ t.lower, d ∉ p.2
@@ -128,45 +143,52 @@ def LowerFree (d : Char) (t : Tables) : Prop := ∀ p ∈ t.lower, d ∉ p.2
 instance (d : Char) (t : Tables) : Decidable (LowerFree d t) :=
   inferInstanceAs (Decidable (∀ p ∈ t.lower, d ∉ p.2))
 
-theorem genWords_processLine_free {d : Char} (hsp : d ≠ ' ') {t : Tables} {lc : Bool} {a : Allowed}
-    (hlow : lc = true → LowerFree d t) {line : List Char} (hline : d ∉ line) :
-    ∀ w ∈ genWords t (processLine t lc a line), FreeWord d w := by
+/-- the decidable table hypothesis implies the hypothesis on the function -/
+theorem LowerFree.keeps {d : Char} {t : Tables} (h : LowerFree d t) : LowerKeeps d t.ops := by
+  intro s hs hd
+  rcases mem_lowerStr (t := t) hd with h' | ⟨p, hp, hdp⟩
+  · exact hs h'
+  · exact h p hp hdp
+
+theorem genWords_processLineG_free {d : Char} (hsp : d ≠ ' ') {ops : TextOps} {lc : Bool} {a : Allowed}
+    (hlow : lc = true → LowerKeeps d ops) {line : List Char} (hline : d ∉ line) :
+    ∀ w ∈ genWordsG ops.isWs (processLineG ops lc a line), FreeWord d w := by
   intro w hw hd
-  have h1 := ((mem_genWords hw).2 d hd).2
-  rcases mem_processLine_src h1 with h | h | ⟨hl, p, hp, hdp⟩
+  have h1 := ((mem_genWordsG hw).2 d hd).2
+  rcases mem_processLineG_src h1 with h | ⟨_, h⟩ | ⟨hl, h⟩
   · exact hsp h
   · exact hline h
-  · exact hlow hl p hp hdp
+  · exact hlow hl line hline h
 
-theorem lineWords_free {d : Char} (hsp : d ≠ ' ') {t : Tables} {lc : Bool} {a : Allowed}
-    (hlow : lc = true → LowerFree d t) {raw : List Char} (hraw : d ∉ strip t.isWs raw) :
-    ∀ w ∈ lineWords t lc a raw, FreeWord d w :=
-  genWords_processLine_free hsp hlow hraw
+theorem lineWordsG_free {d : Char} (hsp : d ≠ ' ') {ops : TextOps} {lc : Bool} {a : Allowed}
+    (hlow : lc = true → LowerKeeps d ops) {raw : List Char} (hraw : d ∉ strip ops.isWs raw) :
+    ∀ w ∈ lineWordsG ops lc a raw, FreeWord d w :=
+  genWords_processLineG_free hsp hlow hraw
 
-theorem elemWords_free {d : Char} (hsp : d ≠ ' ') {t : Tables} {lc : Bool} {a : Allowed}
-    (hlow : lc = true → LowerFree d t) {piece : List Char} (hpiece : d ∉ piece) {ws : List Word}
-    (h : elemWords t lc a piece = some ws) : ∀ w ∈ ws, FreeWord d w := by
-  simp only [elemWords] at h
+theorem elemWordsG_free {d : Char} (hsp : d ≠ ' ') {ops : TextOps} {lc : Bool} {a : Allowed}
+    (hlow : lc = true → LowerKeeps d ops) {piece : List Char} (hpiece : d ∉ piece) {ws : List Word}
+    (h : elemWordsG ops lc a piece = some ws) : ∀ w ∈ ws, FreeWord d w := by
+  simp only [elemWordsG] at h
   split at h
   · simp at h
   · simp only [Option.some.injEq] at h
     subst h
-    exact genWords_processLine_free hsp hlow (fun hd => hpiece (mem_removeMarkers (mem_strip hd)))
+    exact genWords_processLineG_free hsp hlow (fun hd => hpiece (mem_removeMarkers (mem_strip hd)))
 
-theorem docLineElems_free {d : Char} (hsp : d ≠ ' ') {t : Tables} {lc : Bool} {a : Allowed}
-    (hlow : lc = true → LowerFree d t) {raw : List Char} (hraw : d ∉ strip t.isWs raw) :
-    ElemsOk (FreeWord d) (docLineElems t lc a raw) := by
+theorem docLineElemsG_free {d : Char} (hsp : d ≠ ' ') {ops : TextOps} {lc : Bool} {a : Allowed}
+    (hlow : lc = true → LowerKeeps d ops) {raw : List Char} (hraw : d ∉ strip ops.isWs raw) :
+    ElemsOk (FreeWord d) (docLineElemsG ops lc a raw) := by
   intro e he ws hws
-  simp only [docLineElems] at he
+  simp only [docLineElemsG] at he
   split at he
   · simp only [List.mem_singleton] at he
     subst he
     simp only [Option.some.injEq] at hws
     subst hws
-    exact genWords_processLine_free hsp hlow hraw
+    exact genWords_processLineG_free hsp hlow hraw
   · simp only [List.mem_map] at he
     obtain ⟨p, hp, rfl⟩ := he
-    exact elemWords_free hsp hlow (fun hd => hraw (mem_contextSplit hp d hd)) hws
+    exact elemWordsG_free hsp hlow (fun hd => hraw (mem_contextSplit hp d hd)) hws
 
 /-! ### `d`-free words give `d`-free events -/
 
@@ -226,29 +248,43 @@ theorem processWords_free {d : Char} (hh : d ≠ '#') (o : Options) (words : Lis
         exact ⟨fun tok ht => htoks tok (List.mem_append_left _ ht),
                fun tok ht => htoks tok (List.mem_append_right _ ht)⟩
 
-/-- **the invariant for the whole run.**  `d` is neither the blank (which the
-    special-character replacement and the symbol filter introduce) nor `#`
-    (which the n-gram phrase introduces); `d` does not occur in any raw line
-    after `line.strip()`; with `lower_case=True`, `d` does not occur in any entry
-    of the lower-casing table.  Then `d` occurs in no written token.  No
-    hypothesis on the whitespace set and none on the n-gram size. -/
-theorem createEvents_free {d : Char} (hsp : d ≠ ' ') (hh : d ≠ '#') (t : Tables) (o : Options)
-    (hlow : o.lowerCase = true → LowerFree d t)
-    (rawLines : List (List Char)) (hraw : ∀ raw ∈ rawLines, d ∉ strip t.isWs raw) :
-    ∀ ev ∈ createEvents t o rawLines, FreeEv d ev := by
+/-- **the invariant for the whole run**, for arbitrary `TextOps`.  `d` is
+    neither the blank (which the special-character replacement and the symbol
+    filter introduce) nor `#` (which the n-gram phrase introduces); `d` does not
+    occur in any raw line after `line.strip()`; with `lower_case=True`, lowering
+    never introduces `d`.  Then `d` occurs in no written token.  No hypothesis
+    on the whitespace set and none on the n-gram size. -/
+theorem createEventsG_free {d : Char} (hsp : d ≠ ' ') (hh : d ≠ '#') (ops : TextOps) (o : Options)
+    (hlow : o.lowerCase = true → LowerKeeps d ops)
+    (rawLines : List (List Char)) (hraw : ∀ raw ∈ rawLines, d ∉ strip ops.isWs raw) :
+    ∀ ev ∈ createEventsG ops o rawLines, FreeEv d ev := by
   intro ev hev
-  simp only [createEvents] at hev
+  simp only [createEventsG] at hev
   split at hev
   · refine runLine_inv (processWords o) (FreeWord d) (FreeEv d) (processWords_free hh o) _ ?_ ev hev
     intro l hl
     simp only [List.mem_map] at hl
     obtain ⟨raw, hr, rfl⟩ := hl
-    exact lineWords_free hsp hlow (hraw raw hr)
+    exact lineWordsG_free hsp hlow (hraw raw hr)
   · refine runDocument_inv (processWords o) (FreeWord d) (FreeEv d) (processWords_free hh o) _ ?_ ev hev
     intro l hl
     simp only [List.mem_map] at hl
     obtain ⟨raw, hr, rfl⟩ := hl
-    exact docLineElems_free hsp hlow (hraw raw hr)
+    exact docLineElemsG_free hsp hlow (hraw raw hr)
+
+theorem createEventsG_free_raw {d : Char} (hsp : d ≠ ' ') (hh : d ≠ '#') (ops : TextOps) (o : Options)
+    (hlow : o.lowerCase = true → LowerKeeps d ops)
+    (rawLines : List (List Char)) (hraw : ∀ raw ∈ rawLines, d ∉ raw) :
+    ∀ ev ∈ createEventsG ops o rawLines, FreeEv d ev :=
+  createEventsG_free hsp hh ops o hlow rawLines (fun raw hr hd => hraw raw hr (mem_strip hd))
+
+/-- the tables instance (hypothesis on the table: decidable). -/
+theorem createEvents_free {d : Char} (hsp : d ≠ ' ') (hh : d ≠ '#') (t : Tables) (o : Options)
+    (hlow : o.lowerCase = true → LowerFree d t)
+    (rawLines : List (List Char)) (hraw : ∀ raw ∈ rawLines, d ∉ strip t.isWs raw) :
+    ∀ ev ∈ createEvents t o rawLines, FreeEv d ev := by
+  rw [createEvents_eq_G]
+  exact createEventsG_free hsp hh t.ops o (fun h => (hlow h).keeps) rawLines hraw
 
 /-- the same with the hypothesis on the raw lines themselves (`strip` only
     deletes). -/
